@@ -628,6 +628,15 @@ class ExprMixin:
                     xs.assume(xs.heap.sel("$alloc", exc))
                     xs.trace.append("L%d: a user __repr__/__str__ called by %% formatting raises" % e.lineno)
                     yield xs, None, exc
+                if (not isinstance(e.right, ast.Tuple) and tb not in ("str", "int", "bool", "NoneType", "dict", "float", "list", "set")
+                        and not self.contract.labels.get("fmt_operand_not_tuple")):
+                    # `fmt % x` with a single operand of unknown type: if x happens to be a tuple, it is taken as the argument list and
+                    # an arity mismatch raises TypeError ("not all arguments converted" / "not enough arguments")
+                    xt = st2.copy()
+                    xt.assume(smt.typeof(b) == self.eng.ct.cls("tuple"))
+                    if self.feasible_quick(xt):
+                        xt.trace.append("L%d: the single %% operand is a tuple of the wrong length" % e.lineno)
+                        yield xt, None, self.new_exception(xt, "TypeError")
                 yield st2, opaque_fn("fmt", 2)(a, b), None
                 continue
             if ta == "str" or tb == "str":
